@@ -126,6 +126,26 @@ func (e Engine) Pool() []Op {
 	return pool
 }
 
+// hotOps is a short list of representative operations per family; every element is in the pool.
+func (e Engine) hotOps(family int) []Op {
+	var out []Op
+	if family == 0 {
+		for _, p := range []string{`[a-z]+`, `[0-9]+`, `[^a-c]x`, `a{2,3}b?`, `(x|y)*z`, `\d+(\.\d+)?`, `[A-Za-z_][0-9A-Za-z_]*`} {
+			out = append(out, Op{"nfa", p}, Op{"regex_dfa", p})
+		}
+		return out
+	}
+	pool := e.Pool()
+	n := 0
+	for _, o := range pool {
+		if (o.Kind == "spec_dfa" || o.Kind == "spec") && n < 10 {
+			out = append(out, o)
+			n++
+		}
+	}
+	return out
+}
+
 func canonErr(err error) string {
 	lines := strings.Split(err.Error(), "\n")
 	for i := range lines {
@@ -172,71 +192,131 @@ func canonSpec(sp *spec.Spec) string {
 }
 
 // Exec runs one operation and returns its canonical result.
-func Exec(o Op) (out string) {
+// Raw is the uncanonicalised outcome of one operation. Workers only produce Raw values; turning
+// them into canonical strings (fmt, sort - which synchronise through sync.Pool and would add
+// happens-before edges between workers that the code under test does not have) is done by the
+// main goroutine after the join.
+type Raw struct {
+	op     Op
+	panicV any
+	err    error // error of the first stage (parse)
+	sp     *spec.Spec
+	dfa    *auto.DFA
+	tm     map[string][]int
+	dfaErr error
+	lalr   string // "", "ok" or "err"
+	lalrE  error
+	g      *ast.Grammar
+	d2     *auto.DFA
+}
+
+// ExecRaw runs one operation.
+func ExecRaw(o Op) (r *Raw) {
+	r = &Raw{op: o}
 	defer func() {
-		if r := recover(); r != nil {
-			out = fmt.Sprintf("PANIC %v", r)
+		if p := recover(); p != nil {
+			r.panicV = p
 		}
 	}()
 	switch o.Kind {
 	case "spec", "spec_dfa", "spec_lalr":
-		sp, err := spec.Parse("op.grammar", strings.NewReader(o.Text))
-		if err != nil {
-			return canonErr(err)
+		r.sp, r.err = spec.Parse("op.grammar", strings.NewReader(o.Text))
+		if r.err != nil {
+			return
 		}
-		out = canonSpec(sp)
 		if o.Kind == "spec_dfa" {
-			d, tm, err := sp.DFA()
-			if err != nil {
-				return out + "\nDFA " + canonErr(err)
-			}
-			var ts []string
-			for t, ss := range tm {
-				var xs []string
-				for _, s := range ss {
-					xs = append(xs, fmt.Sprint(s))
+			d, tm, err := r.sp.DFA()
+			r.dfa, r.dfaErr = d, err
+			if err == nil {
+				r.tm = map[string][]int{}
+				for t, ss := range tm {
+					for _, s := range ss {
+						r.tm[string(t)] = append(r.tm[string(t)], int(s))
+					}
 				}
-				sort.Strings(xs)
-				ts = append(ts, fmt.Sprintf("%s=%v", t, xs))
 			}
-			sort.Strings(ts)
-			out += "\nDFA " + canonDFA(d) + "\nTERMS " + strings.Join(ts, " ")
 		}
 		if o.Kind == "spec_lalr" {
 			n := 0
-			for range sp.Grammar.Productions.All() {
+			for range r.sp.Grammar.Productions.All() {
 				n++
 			}
 			if n <= 12 {
-				if _, err := sp.LALRParsingTable(); err != nil {
-					out += "\nLALR " + canonErr(err)
+				if _, err := r.sp.LALRParsingTable(); err != nil {
+					r.lalr, r.lalrE = "err", err
 				} else {
-					out += "\nLALR ok"
+					r.lalr = "ok"
 				}
 			}
 		}
-		return out
 	case "ast":
-		g, err := ast.Parse("op.grammar", strings.NewReader(o.Text))
-		if err != nil {
-			return canonErr(err)
-		}
-		return fmt.Sprintf("AST %s decls=%d", g.String(), len(g.Decls))
+		r.g, r.err = ast.Parse("op.grammar", strings.NewReader(o.Text))
 	case "nfa":
 		n, err := nfa.Parse(o.Text)
-		if err != nil {
-			return canonErr(err)
+		r.err = err
+		if err == nil {
+			r.d2 = n.ToDFA().Minimize().EliminateDeadStates().ReindexStates()
 		}
-		return "NFA->DFA " + canonDFA(n.ToDFA().Minimize().EliminateDeadStates().ReindexStates())
 	case "regex_dfa":
 		a, err := regexast.Parse(o.Text)
-		if err != nil {
-			return canonErr(err)
+		r.err = err
+		if err == nil {
+			r.d2 = a.ToDFA().Minimize().EliminateDeadStates().ReindexStates()
 		}
-		return "AST->DFA " + canonDFA(a.ToDFA().Minimize().EliminateDeadStates().ReindexStates())
+	default:
+		panic("unknown op kind " + o.Kind)
 	}
-	panic("unknown op kind " + o.Kind)
+	return
 }
+
+// Canon turns a raw outcome into its canonical text.
+func Canon(r *Raw) (out string) {
+	defer func() {
+		if p := recover(); p != nil {
+			out = fmt.Sprintf("PANIC(canon) %v", p)
+		}
+	}()
+	if r.panicV != nil {
+		return fmt.Sprintf("PANIC %v", r.panicV)
+	}
+	if r.err != nil {
+		return canonErr(r.err)
+	}
+	switch r.op.Kind {
+	case "spec", "spec_dfa", "spec_lalr":
+		out = canonSpec(r.sp)
+		if r.op.Kind == "spec_dfa" {
+			if r.dfaErr != nil {
+				return out + "\nDFA " + canonErr(r.dfaErr)
+			}
+			var ts []string
+			for t, ss := range r.tm {
+				xs := append([]int(nil), ss...)
+				sort.Ints(xs)
+				ts = append(ts, fmt.Sprintf("%s=%v", t, xs))
+			}
+			sort.Strings(ts)
+			out += "\nDFA " + canonDFA(r.dfa) + "\nTERMS " + strings.Join(ts, " ")
+		}
+		switch r.lalr {
+		case "ok":
+			out += "\nLALR ok"
+		case "err":
+			out += "\nLALR " + canonErr(r.lalrE)
+		}
+		return out
+	case "ast":
+		return fmt.Sprintf("AST %s decls=%d", r.g.String(), len(r.g.Decls))
+	case "nfa":
+		return "NFA->DFA " + canonDFA(r.d2)
+	case "regex_dfa":
+		return "AST->DFA " + canonDFA(r.d2)
+	}
+	return "?"
+}
+
+// Exec runs one operation and returns its canonical result.
+func Exec(o Op) string { return Canon(ExecRaw(o)) }
 
 // BuildIsoTable computes the isolated reference of every pool operation in a fresh process each.
 func (e Engine) BuildIsoTable(path string) error {
@@ -284,6 +364,7 @@ const (
 	kHistory = iota
 	kSchedule
 	kSelfTest
+	kPairs // few workers on a short list of representative operations of one family, finely interleaved
 )
 
 func (e Engine) Plan(tier string, seed uint64) []simrt.Case {
@@ -298,6 +379,9 @@ func (e Engine) Plan(tier string, seed uint64) []simrt.Case {
 	}
 	for i := 0; i < nS; i++ {
 		cs = append(cs, simrt.Case{Index: len(cs), Seed: simrt.Mix(seed, 17, 1, uint64(i)), Args: []int{kSchedule}})
+	}
+	for i := 0; i < nS; i++ {
+		cs = append(cs, simrt.Case{Index: len(cs), Seed: simrt.Mix(seed, 17, 2, uint64(i)), Args: []int{kPairs}})
 	}
 	return cs
 }
@@ -431,7 +515,7 @@ func plantGuarded() {
 func (e Engine) selfTest(res *simrt.Result) *simrt.Result {
 	plantedMu = make(chan struct{}, 1)
 	before := e.raceLogSize()
-	alt := func(runnable []int, last, step int) int { return runnable[step%len(runnable)] }
+	alt := func(runnable []int, last, step, site int) int { return runnable[step%len(runnable)] }
 	simsched.Run([]func(){plantGuarded, plantGuarded}, alt, 1000)
 	if e.raceLogSize() != before {
 		b, _ := os.ReadFile(e.raceLogPath())
@@ -494,6 +578,9 @@ func (e Engine) Run(t *simrt.Tape, c simrt.Case, x *simrt.Ctx) *simrt.Result {
 		return true
 	}
 
+	if c.Args[0] == kPairs {
+		pool = e.hotOps(t.Draw(2))
+	}
 	switch c.Args[0] {
 	case kHistory:
 		n := 2 + t.Draw(7)
@@ -515,10 +602,14 @@ func (e Engine) Run(t *simrt.Tape, c simrt.Case, x *simrt.Ctx) *simrt.Result {
 		}
 		res.Key("history", strings.Join(names, ","))
 
-	case kSchedule:
+	case kSchedule, kPairs:
 		nw := 2 + t.Draw(3)
+		if c.Args[0] == kPairs {
+			nw = 2 + t.Draw(2)
+		}
 		lists := make([][]Op, nw)
 		results := make([][]string, nw)
+		raws := make([][]*Raw, nw)
 		var desc []string
 		for w := 0; w < nw; w++ {
 			k := 1 + t.Draw(2)
@@ -531,8 +622,12 @@ func (e Engine) Run(t *simrt.Tape, c simrt.Case, x *simrt.Ctx) *simrt.Result {
 				desc = append(desc, fmt.Sprintf("w%d:%s#%x", w, o.Kind, simrt.HashString(o.Text)&0xffff))
 			}
 			results[w] = make([]string, len(lists[w]))
+			raws[w] = make([]*Raw, len(lists[w]))
 		}
-		policy := t.Draw(3)
+		policy := t.Draw(4)
+		if c.Args[0] == kPairs {
+			policy = []int{4, 4, 3, 0}[t.Draw(4)] // mostly strict alternation at every yield point
+		}
 		// PCT-style: d pre-emption points at tape-chosen steps; otherwise keep running the current one
 		preempt := map[int]bool{}
 		if policy == 2 {
@@ -546,12 +641,12 @@ func (e Engine) Run(t *simrt.Tape, c simrt.Case, x *simrt.Ctx) *simrt.Result {
 			w := w
 			fns = append(fns, func() {
 				for j, o := range lists[w] {
-					results[w][j] = Exec(o)
+					raws[w][j] = ExecRaw(o)
 				}
 			})
 		}
 		simsched.ResetReach()
-		choose := func(runnable []int, last, step int) int {
+		choose := func(runnable []int, last, step, site int) int {
 			stay := -1
 			for i, r := range runnable {
 				if r == last {
@@ -566,9 +661,22 @@ func (e Engine) Run(t *simrt.Tape, c simrt.Case, x *simrt.Ctx) *simrt.Result {
 					return runnable[stay]
 				}
 				return runnable[t.Draw(len(runnable))]
-			default:
+			case 4: // strict alternation
+				return runnable[step%len(runnable)]
+			case 2:
 				if stay >= 0 && !preempt[step] {
 					return runnable[stay]
+				}
+				return runnable[t.Draw(len(runnable))]
+			default: // pre-empt where shared state is touched: yield sites at package-level variable accesses
+				if stay >= 0 {
+					if site >= simsched.GlobalSiteBase {
+						if !t.Chance(1, 2) {
+							return runnable[stay]
+						}
+					} else if !t.Chance(1, 64) {
+						return runnable[stay]
+					}
 				}
 				return runnable[t.Draw(len(runnable))]
 			}
@@ -577,11 +685,16 @@ func (e Engine) Run(t *simrt.Tape, c simrt.Case, x *simrt.Ctx) *simrt.Result {
 		if !ok {
 			panic("schedule exceeded the step budget")
 		}
+		for w := range raws {
+			for j := range raws[w] {
+				results[w][j] = Canon(raws[w][j])
+			}
+		}
 		res.Count("context_switches", simsched.Switches)
 		res.Count("yield_steps", simsched.Steps)
 		for pr := range simsched.Adjacent {
 			res.Key("adjacent", pr[0], pr[1])
-			if pr[0] > 0 && pr[1] > 0 {
+			if pr[0] >= simsched.GlobalSiteBase {
 				res.Count("preempt_at_global_access", 1)
 			}
 		}
